@@ -55,6 +55,7 @@ func main() {
 		deadline := fs.Int64("deadline", 0, "")
 		progress := fs.String("progress", "", "")
 		index := fs.Int("index", 0, "")
+		startIdx := fs.Int("start", 0, "first run index (hashes)")
 		fs.Parse(os.Args[3:])
 		switch cmd {
 		case "run":
@@ -83,7 +84,7 @@ func main() {
 				fmt.Fprintln(os.Stderr, "unknown property")
 				os.Exit(2)
 			}
-			for i := 0; i < *runs; i++ {
+			for i := *startIdx; i < *startIdx+*runs; i++ {
 				rc := sim.Exec(e, *tier, *seed, i, *arm)
 				fmt.Printf("%d %016x\n", i, rc.LogHash())
 			}
